@@ -64,11 +64,11 @@ def ref_step(st, call):
     if op == 'bake':
         if st['locked']:
             return 'RuntimeError', st
+        if dec - touched:
+            return 'ValueError', st          # something declared was not used: refused, and the recipe stays as it was
         if st['open'] is not None:
             st['closed'] = st['closed'] | {st['open']}
             st['open'] = None
-        if dec - touched:
-            return 'ValueError', st          # something declared was not used (checked after the steps ran)
         st['locked'] = True
         return 'bake', st
     if op == 'uses' and arg == '42':
@@ -345,7 +345,18 @@ def h_state(h):
             w2.apply(c)
         verdict, st2 = ref_step(st, call)
         steps_before = len(w2.rec.steps)
+        if call == 'bake':
+            fp_before = _results_fingerprint(w2)
+            shape_before = [(len(s_.frm), len(s_.to)) for s_ in w2.rec.steps]
         got = w2.apply(call)
+        if call == 'bake' and got == 'ValueError':
+            # a refusal is a refusal: the recipe's objects and steps are as they were (so that completing the recipe and
+            # baking again gives what baking the completed recipe gives)
+            h.require('refused-bake:results-unchanged', h.true(_results_fingerprint(w2) == fp_before),
+                      detail=f"{' > '.join(hist) or 'init'} then a refused bake: the recipe's objects changed")
+            h.require('refused-bake:steps-unchanged',
+                      h.true([(len(s_.frm), len(s_.to)) for s_ in w2.rec.steps] == shape_before),
+                      detail=f"{' > '.join(hist) or 'init'} then a refused bake: steps carry states of the abandoned run")
         if verdict == 'bake':
             h.require('bake:verdict', h.true(got in ('ok', 'ValueError')), detail=f"bake: got {got}")
             if got == 'ok':
